@@ -319,6 +319,12 @@ func (e *fedEnv) buildEngine(ctx context.Context, o fedEngineOpts) (*engine.Exec
 			md.RootNodes = append(md.RootNodes, plan.TypeField{TypeName: "Mutation", FieldNames: mutNames})
 		}
 		for _, t := range s.Types {
+			if t.Abstract != "" {
+				if t.Abstract == "interface" && s.ownsAbstract(sub) {
+					md.ChildNodes = append(md.ChildNodes, plan.TypeField{TypeName: t.Name, FieldNames: []string{"id"}})
+				}
+				continue
+			}
 			if t.Entity {
 				if !s.hasEntity(t, sub) {
 					continue
@@ -531,9 +537,13 @@ func (e *fedEnv) monolithMode3(op *fedOp, query string, fail func(t, id, f strin
 	return gExecute(e.mono, doc, op.Name, vars, &monolithBackend{s: e.spec, fail: fail, muts: &muts, nullInputOnFailure: nullInput, ignoreFailedInputs: ignoreInputs})
 }
 
-func newFedEnv(r *core.Run, rich bool) *fedEnv {
+func newFedEnv(r *core.Run, rich bool) *fedEnv { return newFedEnvA(r, rich, 0) }
+
+// newFedEnvA: abstractMode > 0 admits configurations with the interface Node and the union AnyE
+// (see genFedSpec).
+func newFedEnvA(r *core.Run, rich bool, abstractMode int) *fedEnv {
 	e := &fedEnv{r: r}
-	e.spec = genFedSpec(r.W, rich)
+	e.spec = genFedSpec(r.W, rich, abstractMode)
 	for sub := 0; sub < e.spec.NSub; sub++ {
 		e.schemas = append(e.schemas, e.spec.gSchemaFor(sub))
 	}
@@ -573,7 +583,11 @@ func init() { register(&World{Name: "fed01", Run: runFED01}) }
 
 func runFED01(r *core.Run) {
 	const prop = "C01"
-	e := newFedEnv(r, r.Flag("plain") == "")
+	am := 1
+	if r.Flag("noabstract") != "" {
+		am = 0
+	}
+	e := newFedEnvA(r, r.Flag("plain") == "", am)
 	ctx, cancel := context.WithCancel(context.Background())
 	defer cancel()
 	eng, err := e.buildEngine(ctx, fedEngineOpts{})
@@ -586,9 +600,20 @@ func runFED01(r *core.Run) {
 	for i := 0; i < nOps; i++ {
 		ops = append(ops, genFedOp(e.spec, r.W, false, r.W.Prob(0.08)))
 	}
-	execs, out := e.runOps(eng, ops, func(o *fedOp) string { return o.Query }, nil)
+	var dbg func(i int) []engine.ExecutionOptions
+	if r.Flag("plan") != "" { // debugging aid: the query plan is printed into the history
+		dbg = func(i int) []engine.ExecutionOptions {
+			return []engine.ExecutionOptions{engine.SimWithResolveContext(func(rc *resolve.Context) { rc.ExecutionOptions.IncludeQueryPlanInResponse = true })}
+		}
+	}
+	execs, out := e.runOps(eng, ops, func(o *fedOp) string { return o.Query }, dbg)
 	if out == core.OutIdle {
 		r.Fail(prop, "wedge", "", "a request never returned although nothing is runnable")
+	}
+	if dbg != nil {
+		for _, x := range execs {
+			r.Hist("PLAN %s", x.w.body())
+		}
 	}
 	if out != core.OutDone {
 		return
@@ -611,11 +636,15 @@ func runFED01(r *core.Run) {
 			continue
 		}
 		want := canonJSON(mustJSON(ref.Data))
+		key := ""
 		if data != want {
-			r.Fail(prop, "data-mismatch", "", "gateway data differs from the reference monolith\noperation: %s\nvariables: %s\ngateway:  %s\nmonolith: %s\n%s", x.op.Query, x.op.Vars, data, want, e.describe())
+			if sharedKeyFinding(x.op.Query, data, want) {
+				key = "below-response-key-shared-by-type-conditions"
+			}
+			r.Fail(prop, "data-mismatch", key, "gateway data differs from the reference monolith\noperation: %s\nvariables: %s\ngateway:  %s\nmonolith: %s\n%s", x.op.Query, x.op.Vars, data, want, e.describe())
 		}
 		if hasErr != (len(ref.Errors) > 0) {
-			r.Fail(prop, "errors-mismatch", "", "gateway reports errors=%v, the reference monolith errors=%v\noperation: %s\nresponse: %s", hasErr, len(ref.Errors) > 0, x.op.Query, body)
+			r.Fail(prop, "errors-mismatch", key, "gateway reports errors=%v, the reference monolith errors=%v\noperation: %s\nresponse: %s", hasErr, len(ref.Errors) > 0, x.op.Query, body)
 		}
 	}
 	if len(e.viol) > 0 {
@@ -631,8 +660,23 @@ func runFED01(r *core.Run) {
 			break
 		}
 	}
+	e.abstractProbes(ops)
 	cancel()
 	r.Drain(50)
+}
+
+// abstractProbes counts how often interfaces / unions were really exercised.
+func (e *fedEnv) abstractProbes(ops []*fedOp) {
+	if !e.spec.Abstract {
+		return
+	}
+	e.r.Probe("abstract_configuration")
+	for _, o := range ops {
+		if strings.Contains(o.Query, "... on E") {
+			e.r.Probe("abstract_selection_with_fragments")
+			break
+		}
+	}
 }
 
 func mustJSON(v any) string {
@@ -655,4 +699,185 @@ func sortedKeysAny(m map[string]any) []string {
 	}
 	sort.Strings(out)
 	return out
+}
+
+// fedAbstractMode: interfaces and unions are admitted (with safe @requires input names) unless the
+// run is flagged noabstract.
+func fedAbstractMode(r *core.Run) int {
+	if r.Flag("noabstract") != "" {
+		return 0
+	}
+	return 2
+}
+
+// ---- classifier for the known finding "shared response key below different type conditions"
+
+// firstDiffPath returns the path (response keys / indices) of the first position where two JSON
+// documents differ.
+func firstDiffPath(a, b string) []any {
+	var x, y any
+	if json.Unmarshal([]byte(a), &x) != nil || json.Unmarshal([]byte(b), &y) != nil {
+		return nil
+	}
+	var path []any
+	var walk func(x, y any) bool
+	walk = func(x, y any) bool {
+		switch xv := x.(type) {
+		case map[string]any:
+			yv, ok := y.(map[string]any)
+			if !ok {
+				return true
+			}
+			for _, k := range sortedKeysAny(xv) {
+				path = append(path, k)
+				if walk(xv[k], yv[k]) {
+					return true
+				}
+				path = path[:len(path)-1]
+			}
+			return len(xv) != len(yv)
+		case []any:
+			yv, ok := y.([]any)
+			if !ok || len(xv) != len(yv) {
+				return true
+			}
+			for i := range xv {
+				path = append(path, i)
+				if walk(xv[i], yv[i]) {
+					return true
+				}
+				path = path[:len(path)-1]
+			}
+			return false
+		}
+		return canonValue(x) != canonValue(y)
+	}
+	if walk(x, y) {
+		return append([]any{}, path...)
+	}
+	return nil
+}
+
+// keysBelowSeveralTypeConditions: response keys of composite fields that occur, within one
+// selection set, in inline fragments (or fragment spreads) on at least two different types.
+func keysBelowSeveralTypeConditions(doc *gDocument) map[string]bool {
+	out := map[string]bool{}
+	frags := doc.Frags
+	var walk func(sel []*gSelection)
+	// fieldsOf flattens the direct fields of a selection set per type condition
+	var fieldsOf func(sel []*gSelection, cond string, into map[string]map[string]bool)
+	fieldsOf = func(sel []*gSelection, cond string, into map[string]map[string]bool) {
+		for _, s := range sel {
+			switch {
+			case s.Kind == "field":
+				if len(s.Sel) > 0 {
+					k := s.respKey()
+					if into[k] == nil {
+						into[k] = map[string]bool{}
+					}
+					into[k][cond] = true
+				}
+			case s.Kind == "inline":
+				c := cond
+				if s.TypeCond != "" {
+					c = s.TypeCond
+				}
+				fieldsOf(s.Sel, c, into)
+			case s.Kind == "spread":
+				if f := frags[s.Name]; f != nil {
+					fieldsOf(f.Sel, f.TypeCond, into)
+				}
+			}
+		}
+	}
+	walk = func(sel []*gSelection) {
+		into := map[string]map[string]bool{}
+		fieldsOf(sel, "", into)
+		for k, conds := range into {
+			n := 0
+			for c := range conds {
+				if c != "" {
+					n++
+				}
+			}
+			if n >= 2 {
+				out[k] = true
+			}
+		}
+		for _, s := range sel {
+			switch s.Kind {
+			case "field", "inline":
+				walk(s.Sel)
+			case "spread":
+				if f := frags[s.Name]; f != nil {
+					walk(f.Sel)
+				}
+			}
+		}
+	}
+	for _, op := range doc.Ops {
+		walk(op.Sel)
+	}
+	return out
+}
+
+// sharedKeyFinding: the gateway's data differs from the reference at a position below a response
+// key that the operation uses in fragments on different types (known finding, DESIGN.md 12.3).
+func sharedKeyFinding(query, got, want string) bool {
+	doc, err := parseGQL(query)
+	if err != nil {
+		return false
+	}
+	keys := keysBelowSeveralTypeConditions(doc)
+	if len(keys) == 0 {
+		return false
+	}
+	path := firstDiffPath(got, want)
+	for _, p := range path {
+		if k, ok := p.(string); ok && keys[k] {
+			return true
+		}
+	}
+	// a non-null violation below such a key surfaces higher up: the gateway has null where the
+	// reference has a subtree that contains the key
+	var g, w any
+	if json.Unmarshal([]byte(got), &g) != nil || json.Unmarshal([]byte(want), &w) != nil {
+		return false
+	}
+	gv, _ := valueAt(g, path)
+	wv, ok := valueAt(w, path)
+	if gv != nil || !ok {
+		return false
+	}
+	found := false
+	var scan func(v any)
+	scan = func(v any) {
+		switch x := v.(type) {
+		case map[string]any:
+			for k, c := range x {
+				if keys[k] {
+					found = true
+				}
+				scan(c)
+			}
+		case []any:
+			for _, c := range x {
+				scan(c)
+			}
+		}
+	}
+	scan(wv)
+	return found
+}
+
+// sharedKeyShape classifies an operation for the known finding of DESIGN.md 12.3 ("response key
+// shared by fragments on different types"): plans for such operations attach the fetches below that
+// key to one type condition only, so their requests and data can depend on the schedule and on the
+// planner's map iteration order. Violations in such operations are reported under a key of their own.
+func sharedKeyShape(query string) string {
+	doc, err := parseGQL(query)
+	if err != nil || len(keysBelowSeveralTypeConditions(doc)) == 0 {
+		return ""
+	}
+	return "-with-response-key-shared-by-type-conditions"
 }
